@@ -15,16 +15,16 @@ FlagNames == {"operational", "parsing", "formatting", "macro", "check", "diff", 
 NoF == [f \in FlagNames |-> FALSE]
 
 VARIABLES l, phase, check, mode, backup, resolved, filtered, formatted, cur, curDiffers,
-          flags, fsn, inOrder,
+          flags, fsn, inOrder, invoked,
           bad        \* name of the first property clause broken in this run ("" if none)
 
 vars == <<l, phase, check, mode, backup, resolved, filtered, formatted, cur, curDiffers,
-          flags, fsn, inOrder, bad>>
+          flags, fsn, inOrder, invoked, bad>>
 
 Init ==
   /\ l = 1 /\ phase = "idle" /\ check = FALSE /\ mode = "" /\ backup = FALSE
   /\ resolved = {} /\ filtered = {} /\ formatted = {} /\ cur = "" /\ curDiffers = FALSE
-  /\ flags = NoF /\ fsn = 0 /\ inOrder = TRUE /\ bad = ""
+  /\ flags = NoF /\ fsn = 0 /\ inOrder = TRUE /\ invoked = FALSE /\ bad = ""
 
 E == Rec[l]
 IsEv(e) == l <= Len(Rec) /\ E.ev = e /\ l' = l + 1
@@ -39,10 +39,10 @@ Reset ==
   /\ IsEv("reset")
   /\ phase' = "idle" /\ check' = FALSE /\ mode' = "" /\ backup' = FALSE
   /\ resolved' = {} /\ filtered' = {} /\ formatted' = {} /\ cur' = "" /\ curDiffers' = FALSE
-  /\ flags' = NoF /\ fsn' = 0 /\ inOrder' = TRUE /\ bad' = ""
+  /\ flags' = NoF /\ fsn' = 0 /\ inOrder' = TRUE /\ invoked' = FALSE /\ bad' = ""
 
 Invocation ==
-  /\ IsEv("Invocation") /\ check' = E.check /\ Order(phase = "idle")
+  /\ IsEv("Invocation") /\ check' = E.check /\ Order(phase = "idle") /\ invoked' = TRUE
   /\ UNCHANGED <<phase, mode, backup, resolved, filtered, formatted, cur, curDiffers, flags, fsn, bad>>
 
 InputStart ==
@@ -53,29 +53,29 @@ InputStart ==
   (* C15: the session flags are sticky: what a new input sees is what was accumulated *)
   /\ Mark("TrFlagsSticky", Geq(AsFlags(E.flags), flags))
   /\ flags' = Or(flags, AsFlags(E.flags))
-  /\ Order(phase \in {"idle", "failed"}) /\ UNCHANGED check
+  /\ Order(phase \in {"idle", "failed"}) /\ UNCHANGED <<check, invoked>>
 
 VersionMismatch ==
   /\ IsEv("VersionMismatch") /\ phase' = "failed" /\ Order(phase = "started")
-  /\ UNCHANGED <<check, mode, backup, resolved, filtered, formatted, cur, curDiffers, flags, fsn, bad>>
+  /\ UNCHANGED <<check, mode, backup, resolved, filtered, formatted, cur, curDiffers, flags, fsn, bad, invoked>>
 
 ParseRoot ==
   /\ IsEv("ParseRoot")
   /\ phase' = IF E.ok THEN "rootparsed" ELSE "parsefailed"
   /\ Order(phase = "started")
-  /\ UNCHANGED <<check, mode, backup, resolved, filtered, formatted, cur, curDiffers, flags, fsn, bad>>
+  /\ UNCHANGED <<check, mode, backup, resolved, filtered, formatted, cur, curDiffers, flags, fsn, bad, invoked>>
 
 Resolved ==
   /\ IsEv("Resolved")
   /\ resolved' = {E.files[i] : i \in 1 .. Len(E.files)}
   /\ phase' = "resolved" /\ Order(phase = "rootparsed")
-  /\ UNCHANGED <<check, mode, backup, filtered, formatted, cur, curDiffers, flags, fsn, bad>>
+  /\ UNCHANGED <<check, mode, backup, filtered, formatted, cur, curDiffers, flags, fsn, bad, invoked>>
 
 Filtered ==
   /\ IsEv("Filtered")
   /\ filtered' = filtered \cup {E.path}
   /\ Order(phase = "resolved" /\ E.path \in resolved)
-  /\ UNCHANGED <<phase, check, mode, backup, resolved, formatted, cur, curDiffers, flags, fsn, bad>>
+  /\ UNCHANGED <<phase, check, mode, backup, resolved, formatted, cur, curDiffers, flags, fsn, bad, invoked>>
 
 FormatFile ==
   /\ IsEv("FormatFile")
@@ -84,13 +84,13 @@ FormatFile ==
   /\ formatted' = formatted \cup {E.path} /\ cur' = E.path /\ curDiffers' = FALSE
   /\ phase' = "formatting" /\ fsn' = 0
   /\ Order(phase \in {"resolved", "emitted"})
-  /\ UNCHANGED <<check, mode, backup, resolved, filtered, flags>>
+  /\ UNCHANGED <<check, mode, backup, resolved, filtered, flags, invoked>>
 
 Emit ==
   /\ IsEv("Emit")
   /\ curDiffers' = E.differs /\ phase' = "emitted"
   /\ Order(phase = "formatting" /\ E.path = cur)
-  /\ UNCHANGED <<check, mode, backup, resolved, filtered, formatted, cur, flags, fsn, bad>>
+  /\ UNCHANGED <<check, mode, backup, resolved, filtered, formatted, cur, flags, fsn, bad, invoked>>
 
 FsOp ==
   /\ IsEv("FsOp")
@@ -104,7 +104,7 @@ FsOp ==
              THEN E.point = (CASE fsn = 0 -> "backup.write_tmp" [] fsn = 1 -> "backup.rename_bk"
                                [] fsn = 2 -> "backup.rename_tmp" [] OTHER -> "none")
              ELSE E.point = "files.write" /\ fsn = 0)
-  /\ UNCHANGED <<phase, check, mode, backup, resolved, filtered, formatted, cur, curDiffers, flags>>
+  /\ UNCHANGED <<phase, check, mode, backup, resolved, filtered, formatted, cur, curDiffers, flags, invoked>>
 
 InputEnd ==
   /\ IsEv("InputEnd")
@@ -115,7 +115,7 @@ InputEnd ==
   /\ flags' = Or(flags, AsFlags(E.flags))
   /\ phase' = "ended"
   /\ Order(phase \in {"resolved", "emitted", "parsefailed"})
-  /\ UNCHANGED <<check, mode, backup, resolved, filtered, formatted, cur, curDiffers, fsn>>
+  /\ UNCHANGED <<check, mode, backup, resolved, filtered, formatted, cur, curDiffers, fsn, invoked>>
 
 Reported ==
   /\ IsEv("Reported")
@@ -126,18 +126,18 @@ Reported ==
           /\ (phase # "ended") => AsFlags(E.flags).operational)
   /\ flags' = Or(flags, AsFlags(E.flags))
   /\ phase' = "idle"
-  /\ UNCHANGED <<check, mode, backup, resolved, filtered, formatted, cur, curDiffers, fsn, inOrder>>
+  /\ UNCHANGED <<check, mode, backup, resolved, filtered, formatted, cur, curDiffers, fsn, inOrder, invoked>>
 
 BadPath ==
   /\ IsEv("BadPath")
   /\ flags' = [flags EXCEPT !.operational = TRUE]
   /\ Order(phase = "idle")
-  /\ UNCHANGED <<phase, check, mode, backup, resolved, filtered, formatted, cur, curDiffers, fsn, bad>>
+  /\ UNCHANGED <<phase, check, mode, backup, resolved, filtered, formatted, cur, curDiffers, fsn, bad, invoked>>
 
 PanicCaught ==
   /\ IsEv("PanicCaught") \/ IsEv("InjectedPanic") \/ IsEv("Fault") \/ IsEv("Crash")
   /\ UNCHANGED <<phase, check, mode, backup, resolved, filtered, formatted, cur, curDiffers,
-                 flags, fsn, inOrder, bad>>
+                 flags, fsn, inOrder, bad, invoked>>
 
 Exit ==
   /\ IsEv("Exit")
@@ -147,7 +147,7 @@ Exit ==
                      THEN 1 ELSE 0)
   /\ phase' = "exited"
   /\ UNCHANGED <<check, mode, backup, resolved, filtered, formatted, cur, curDiffers, flags, fsn,
-                 inOrder>>
+                 inOrder, invoked>>
 
 Next == Reset \/ Invocation \/ InputStart \/ VersionMismatch \/ ParseRoot \/ Resolved
         \/ Filtered \/ FormatFile \/ Emit \/ FsOp \/ InputEnd \/ Reported \/ BadPath
@@ -156,9 +156,12 @@ Spec == Init /\ [][Next]_vars
 
 (* one pass: at the end of each run print its verdict, never stop *)
 AtRunEnd == l > Len(Rec) \/ Rec[l].ev = "reset"
+(* C16: a process that announced an invocation must reach Exit (status 0 or 1 is TrExit) *)
+Ended == invoked => phase = "exited"
 ReportInv ==
-  (AtRunEnd /\ l > 1 /\ (bad # "" \/ ~inOrder)) =>
-      PrintT(ToJson([tag |-> "FAIL", l |-> l - 1, bad |-> bad, inOrder |-> inOrder]))
+  (AtRunEnd /\ l > 1 /\ (bad # "" \/ ~inOrder \/ ~Ended)) =>
+      PrintT(ToJson([tag |-> "FAIL", l |-> l - 1,
+                     bad |-> IF bad = "" /\ ~Ended THEN "TrEnds" ELSE bad, inOrder |-> inOrder]))
 
 TrNoWriteBeforeResolved == bad # "TrNoWriteBeforeResolved"
 TrReadOnly == bad # "TrReadOnly"
